@@ -168,20 +168,26 @@ def eval_cases(name, cases, shard=40, workers=14):
     jobs = []
     for i in range(0, len(cases), shard):
         part = cases[i:i + shard]
-        txt = PRELUDE + "Definition cases : list ecase := [\n%s].\n" % ";\n".join(case_term(c) for c in part)
+        # self-test of the evaluator: a copy of the shard's first history with its last observation removed must be reported
+        # (index len(part)); a shard whose canary is not reported is an error, never "no differences"
+        canary = dict(part[0])
+        canary["obs"] = part[0]["obs"][:-1]
+        txt = PRELUDE + "Definition cases : list ecase := [\n%s].\n" % ";\n".join(case_term(c) for c in part + [canary])
         txt += "Definition D := Eval vm_compute in diffs_from 0%nat cases.\nPrint D.\n"
-        jobs.append((i, txt))
+        jobs.append((i, len(part), txt))
     diffs, errs = {}, []
 
     def one(job):
-        i, txt = job
+        i, npart, txt = job
         rc, out, dt = vlib.coq_eval("%s_%d_%d" % (name, os.getpid(), i), txt, timeout=1800)
         flat = " ".join(out.split())
         if rc != 0 or "D = " not in flat:
             return i, None, out[-3000:]
-        body = flat.split("D = ", 1)[1].split(" : list")[0]
-        trip = re.findall(r"\((\d+), \((\d+), (\d+)\)\)", body)
-        return i, [(int(a), int(b_), int(c_)) for a, b_, c_ in trip], None
+        body = flat.split("D = ", 1)[1].split(" : list")[0].replace("%nat", "")
+        trip = [(int(a), int(b_), int(c_)) for a, b_, c_ in re.findall(r"\((\d+), \((\d+), (\d+)\)\)", body)]
+        if not any(a == npart for a, _, _ in trip):
+            return i, None, "evaluator self-test failed: the canary history of this shard was not reported as differing; output: " + out[-1500:]
+        return i, [t for t in trip if t[0] != npart], None
 
     t0 = time.time()
     with ThreadPoolExecutor(max_workers=workers) as ex:
